@@ -24,7 +24,7 @@ CHECK = dict(
                      'stall points exist at P_OBJCACHE_RELEASE / P_OBJCACHEV2_RELEASE and in the scheduler, mutex and semaphore wake-up paths only'],
         technique='runtime monitoring: constructor/destructor log per key and per object id (side table of relaxed atomics: harness-side reference '
                   'count, live flag, recycler bookkeeping), sharing word per key, cool-down and lifespan "not earlier than" oracles, stuck detector; '
-                  'ASan+UBSan (objects are exact-size heap objects whose bytes are read while held), TSan, plain; OS-level stall points, CPU shapes',
+                  'ASan+UBSan (objects are exact-size heap objects whose bytes are read while held), TSan, plain; OS-level stall points, CPU shapes; plus a scripted cool-down probe (one failing construction, an attempt every 10 ms; refusals must not renew the cool-down)',
         level_text='Held on the seeded executions actually run: every constructor entry is checked for a second running constructor of the key, every '
                    'successful acquire for a second live object of the key, every destructor and every move-out for a non-zero harness-side '
                    'reference count, every recycling release for holders left at its return, every refusal for an expired cool-down, expiry for '
